@@ -11,6 +11,7 @@ pub struct SharedContext {
     defs: HashMap<String, Schema>,
     seen: HashSet<String>,
     n_compiled: usize,
+    ref_depth: usize,
     pending_warnings: Vec<String>,
     pattern_cache: PatternPropertyCache,
 }
@@ -99,6 +100,7 @@ impl SharedContext {
             defs: HashMap::default(),
             seen: HashSet::default(),
             n_compiled: 0,
+            ref_depth: 0,
             pending_warnings: Vec::new(),
             pattern_cache: PatternPropertyCache::default(),
         }
@@ -142,6 +144,21 @@ impl Context<'_> {
             bail!("schema too large");
         }
         Ok(())
+    }
+
+    /// A definition is compiled when the first reference to it is seen, from inside whatever
+    /// is being compiled then; bound the depth of that recursion.
+    pub fn enter_ref(&self) -> Result<()> {
+        let mut shared = self.shared.borrow_mut();
+        if shared.ref_depth >= self.options.max_stack_level {
+            bail!("$ref chain too deep");
+        }
+        shared.ref_depth += 1;
+        Ok(())
+    }
+
+    pub fn leave_ref(&self) {
+        self.shared.borrow_mut().ref_depth -= 1;
     }
 
     pub fn record_warning(&self, msg: String) {
